@@ -88,6 +88,10 @@ pub struct Spec {
     pub vis: String,
     pub items: Vec<Top>,
     pub paren: ParenStyle,
+    /// Header without a user state type (`pub Lexer -> u32;`): only for definitions whose rules
+    /// are all `re,` or `re = id,` (nothing is logged, no decisions are scripted).
+    #[serde(default)]
+    pub stateless: bool,
 }
 
 #[derive(Clone, Debug)]
@@ -125,6 +129,11 @@ impl Spec {
 
     pub fn has_error_type(&self) -> bool {
         self.items.iter().any(|t| matches!(t, Top::ErrorType))
+    }
+
+    /// All rules are `re,` or `re = id,`: the definition does not need the harness's user state.
+    pub fn can_be_stateless(&self) -> bool {
+        self.rules().iter().all(|r| matches!(r.kind, Kind::Skip | Kind::Simple)) && !self.has_error_type()
     }
 
     pub fn set_names(&self) -> Vec<String> {
@@ -323,10 +332,11 @@ impl Spec {
             o.push('\n');
         }
         o.push_str(&format!(
-            "    {}{}{}(rt::St) -> u32;\n",
+            "    {}{}{}{} -> u32;\n",
             self.vis,
             if self.vis.is_empty() { "" } else { " " },
-            name
+            name,
+            if self.stateless { "" } else { "(rt::St)" }
         ));
         let mut id = 0u32;
         for t in &self.items {
@@ -372,7 +382,9 @@ impl Spec {
         } else {
             "::std::convert::Infallible"
         };
-        if self.named() {
+        if self.stateless {
+            o.push_str(&format!("rt::glue0!({}, {});\n", name, err));
+        } else if self.named() {
             o.push_str(&format!(
                 "rt::glue!({}, {}, {}Rule, [{}]);\n",
                 name,
